@@ -1,6 +1,8 @@
 """Random history driver for xgi.Hypergraph (C->S): generates abstract ops with the full
 argument zoo, executes them on the real object and logs one record per call."""
+import pickle
 import random
+import warnings
 
 import xgi
 
@@ -175,9 +177,28 @@ def run_history(hid, rng, length, *, gamma=None, nn=6, cls=xgi.Hypergraph, call=
     while seq < length:
         op = ops[seq] if seq < len(ops) else gen(rng, pre, nn)
         gname = g.name
-        res, nwarn, g2 = call(H, op, g, rng)
-        if res == "ok":
-            g = g2
+        if seq >= len(ops) and seq > 2 and rng.random() < 0.06 and not pre.get("frozen"):
+            # "fork": the history goes on with a copy (copy(), own-class constructor or pickle round trip) while
+            # the original is edited a few more times behind its back.  Nothing of that may reach the copy,
+            # which must be the network that was copied, with a counter that is still fresh.
+            how = rng.choice(["copy", "copy", "constructor", "pickle"])
+            op = hg.mkop("fork", s1=how)
+            if "h" in (ops[0] if ops else gen(rng, pre, nn)):
+                op["h"] = []
+            old = H
+            try:
+                with warnings.catch_warnings():
+                    warnings.simplefilter("ignore")
+                    H = old.copy() if how == "copy" else (cls(old) if how == "constructor" else pickle.loads(pickle.dumps(old)))
+                res, nwarn = "ok", 0
+                for _ in range(3):
+                    call(old, gen(rng, pre, nn), g, rng)
+            except Exception as ex:  # noqa: BLE001
+                H, res, nwarn = old, hg.classify(ex), 0
+        else:
+            res, nwarn, g2 = call(H, op, g, rng)
+            if res == "ok":
+                g = g2
         post, postanom = proj(H, g)
         rec = {
             "rid": f"{hid}.{seq}", "gamma": gname, "pre": pre, "preanom": preanom, "op": op,
